@@ -183,6 +183,11 @@ func HoldRefreshesBySystem(st *state.State, level HoldLevel, holdTime string, ho
 		}
 
 		holdDuration = holdTime.Sub(timeNow())
+		if holdDuration == 0 {
+			// zero means "maximum" to HoldRefresh; a hold ending right now is an
+			// already expired hold
+			holdDuration = -1
+		}
 	}
 
 	_, err = HoldRefresh(st, level, "system", holdDuration, holdSnaps...)
